@@ -24,6 +24,7 @@ def ctx_setup(eng):
     stubs.STUBS['Fasta'] = {'methods': {'fetch': fetch}, 'props': {}, 'setters': {}}
     eng.spec_env['FASTA'] = Builtin('FASTA', lambda e, a, k, n: Obj('Fasta', {'seq': a[0]}))
     eng.spec_env['CONTEXTS'] = [''.join(t) for t in itertools.product('ACGTN', repeat=2)]
+    eng.spec_env['TRIPLES'] = [''.join(t) for t in itertools.product('ACGT', repeat=3)]
 
 
 context = Contract(
@@ -39,11 +40,17 @@ for two in CONTEXTS:
         # reference G at position 2 preceded by `two`: the C-strand context is revcomp(two + 'G')
         ref = two + 'G' + 'NN'
         out.append(('G', two + 'G', obs, t.position_to_context('chr', 2, 'G', obs, strand=True, reference=FASTA(ref))))
-# truncated contexts at the contig ends
-ends = [t.position_to_context('chr', 3, 'C', 'T', strand=False, reference=FASTA('AAAC')),
-        t.position_to_context('chr', 2, 'C', 'T', strand=False, reference=FASTA('AACG')),
-        t.position_to_context('chr', 0, 'G', 'A', strand=True, reference=FASTA('GTT')),
-        t.position_to_context('chr', 1, 'G', 'A', strand=True, reference=FASTA('CGT'))]
+# truncated contexts at the contig ends: every 3-base contig, every position whose three-base context does not fit
+ends = []
+for three in TRIPLES:
+    for pos in (1, 2):
+        if three[pos] == 'C':
+            for obs in 'TC':
+                ends.append(t.position_to_context('chr', pos, 'C', obs, strand=False, reference=FASTA(three)))
+    for pos in (0, 1):
+        if three[pos] == 'G':
+            for obs in 'AG':
+                ends.append(t.position_to_context('chr', pos, 'G', obs, strand=True, reference=FASTA(three)))
 return (out, ends)
 ''',
     params={}, setup=ctx_setup,
@@ -62,8 +69,8 @@ return (out, ends)
         'truncated_contexts_give_no_call': 'all(e[1] == "." for e in result[1])',
     },
     raises={},
-    assumptions=['exhaustive over all two-base extensions over ACGTN (25), nine observed characters, both strands, plus four '
-                 'contig-end cases; executed concretely by the engine on the real TAPS class',
+    assumptions=['exhaustive over all two-base extensions over ACGTN (25), nine observed characters, both strands, plus every C / G of '
+                 'every 3-base contig whose context is cut by a contig end; executed concretely by the engine on the real TAPS class',
                  'reference.fetch: substring, ValueError for a negative start (A4, pysam.FastaFile)'],
 )
 
